@@ -56,6 +56,17 @@ for _o1, _c1 in (("(", ")"), ("[", "]"), ("{", "}")):
             RULE_BREAKERS.append(("mismatched bracket (nested)", "int x = %s %s 1 %s ;" % (_o1, _o2, _c1)))
             RULE_BREAKERS.append(("mismatched bracket (nested)", "int x = f%s a, %s 1 %s, b;" % ("(", _o2, ")") if _o2 != "(" else "int y = g(h[1);"))
             RULE_BREAKERS.append(("mismatched bracket (nested)", "enum E { A = %s 1 + %s 2 %s };" % (_o1, _o2, _c1)))
+# every place where the parser matches brackets of all three kinds while it collects or skips tokens (NOT the regions it discards
+# by counting one bracket kind only — function bodies, static_assert arguments, constructor initialisers: C13 — where kinds are
+# not compared by design), filled with sequences whose round parentheses balance while the kinds do not match
+BRACKET_SLOTS = ["__declspec(%s) int v;", "int v __attribute__((%s));", "__attribute__((%s)) int v;", "[[%s]] int v;", "alignas(%s) int v;", "decltype(%s) v;",
+                 "void f() noexcept(%s);", "void f() throw(%s);", "int v[%s];", "int v{%s};", "void f(int a = %s);", "template <typename T = X<%s>> struct Y;",
+                 "X<(%s)> v;", "using A = decltype(%s);", "struct B1 { int b : (%s); };", "struct B2 : B<(%s)> { };", "void f() -> decltype(%s);",
+                 "struct alignas(%s) B3 { };", "int v [[gnu::x(%s)]];", "enum E : decltype(%s) { A };", "template <int N = (%s)> struct Z;", "auto l = [](%s) { };"]
+BRACKET_FILLS = ["[ }", "{ ]", "1 [ 2 }", "( [ ) ]", "a { ) (", "( { ] )", "{ ( ] ) }", "[ ( ] )", "x [ y { z ] }"]
+for _s in BRACKET_SLOTS:
+    for _f in BRACKET_FILLS:
+        RULE_BREAKERS.append(("mismatched bracket (%s)" % _s.replace("%s", "…"), _s % _f))
 CLASS_ONLY_BREAKERS = [("namespace in class", "namespace n { }"), ("concept in class", "template <typename T> concept C = true;"),
                        ("extern block in class", "extern \"C\" { }"), ("using namespace in class", "using namespace std;"),
                        ("extern template in class", "extern template class X<int>;")]
@@ -100,6 +111,13 @@ def run(ctx):
     for d in (50, 400, 3000):
         inputs += ["(" * d, "int x = " + "(" * d + "1" + ")" * d + ";", "namespace a {" * d, "A<" * d + "int" + ">" * d + " v;", "struct S {" * d,
                    "int x" + "[1" * d + ";", "void f(" + "int (*" * d + "p" + ")()" * d + ");"]
+    # every character outside the basic source character set (and a few inside), at the end of the input, before trailing
+    # blanks, alone on the last line, and in the middle, after several kinds of prefix
+    odd = [chr(c) for c in list(range(0, 32)) + [127]] + ["\x85", "\xa0", "\u2028", "\u2029", "\u3000", "\ufeff", "$", "@", "`", "\\", "é", "\U0001f600"]
+    for ch in odd:
+        for pre in ("", "int x;\n", "struct S {\n int a; ", "namespace n { int y;\n", "int z = 1 +", "/* c */ "):
+            for suf in ("", " ", "\n", " \n\n", "\t\r\n", " int w;", "\n}\n"):
+                inputs.append(pre + ch + suf)
     fails = []
     lfails = []
     for t in inputs:
